@@ -692,13 +692,17 @@ def run(ctx: vlib.Ctx):
     # run with exception classes, is Errs.union_run / the union position of ErrsX
     ctx.theorems("props/C05_emit.vo", ["C05_union_emitted", "C05_union_emitted_exceptions",
                                        "C05_union_emitted_rejects_partial", "C05_x_union_emitted"], kernels=["K19"])
+    # (T) kernel K105a (FieldUnpackerCodeBlockBuilder.build): the emitted field block computes Errs.field_step; the program built
+    # from the emitted blocks is Errs.from_dict
+    ctx.theorems("props/C05_fieldblock.vo", ["C05_field_block_emitted", "C05_field_blocks_emitted", "C05_from_dict_emitted",
+                                             "C05_emitted_outcomes", "C05_emitted_first_bad"], kernels=["K105a"])
     # (T) kernel K16: emitted handler classes + exceptions.py hierarchy, re-translated from /repo on every run
     ctx.theorems("props/C05_handlers.vo", ["C05_k16_handlers_as_modelled", "C05_k16_documented_pass_through",
                                            "C05_k16_model_patterns"], kernels=["K16"])
     if not ctx.quick():
         # second opinion: the independent checker re-validates the compiled property files and their cone
         rc, log, secs = vlib.run(["timeout", "1500", "coqchk", "-silent", "-o", "-Q", "theories", "Verif", "-Q", "gen", "VerifGen",
-                                  "-Q", "props", "VerifProps", "VerifProps.C05_errors", "VerifProps.C05_typed", "VerifProps.C05_xtyped", "VerifProps.C05_emit", "VerifProps.C05_handlers"],
+                                  "-Q", "props", "VerifProps", "VerifProps.C05_errors", "VerifProps.C05_typed", "VerifProps.C05_xtyped", "VerifProps.C05_emit", "VerifProps.C05_fieldblock", "VerifProps.C05_handlers"],
                                  cwd=vlib.COQ, timeout=1530)
         ok = rc == 0 and "Axioms: <none>" in log
         ctx.obligation("coqchk VerifProps.C05_errors C05_typed C05_handlers (Axioms: <none>)", ok, log[-400:])
@@ -712,6 +716,8 @@ def run(ctx: vlib.Ctx):
     corr_budget = ctx.budget(500, 12000)
 
     class_cases, class_labels = [], []
+    from harness.props import c05_fblock
+    fb = c05_fblock.Collector()
     shape_checked = shape_bad = 0
     shape_detail = []
     try:
@@ -757,7 +763,13 @@ def run(ctx: vlib.Ctx):
                     shape_checked += 1
                     shape_bad += 1
                     shape_detail.append(f"{s['cls']}: no generated from_dict with the non-mapping frame was captured")
+                try:
+                    fmetas = O.field_meta(s, mod)
+                except Exception:  # noqa: BLE001 - judged by the behavioural stream
+                    fmetas = None
                 for p in roots:
+                    if fmetas is not None:
+                        fb.add_program(s["cls"], p, fmetas)
                     shape_checked += 1
                     pr = shape_problems(p, names, idents, s["forbid"])
                     if pr:
@@ -771,6 +783,8 @@ def run(ctx: vlib.Ctx):
             ctx.not_shown("correspondence generated-from_dict-shape", "; ".join(shape_detail[:10]))
         if shape_checked == 0:
             ctx.not_shown("correspondence generated-from_dict-shape", "no generated program was captured")
+        # kernel K105a: every captured field block, as text, vs the translated FieldUnpackerCodeBlockBuilder.build
+        fb.run(ctx)
 
         # ---- field-loop level: oracle + correspondence cases
         for s, mod, ents in schemas:
